@@ -51,6 +51,8 @@ class Stream(ModelMixin["Stream"], Base):
     marlin_la_url: Mapped[str | None] = mapped_column(sa.String(), nullable=True)
     playready_la_url: Mapped[str | None] = mapped_column(sa.String(), nullable=True)
     media_files: Mapped[list[MediaFile]] = relationship('MediaFile', cascade="all, delete")
+    periods: Mapped[list["Period"]] = relationship(  # noqa: F821
+        'Period', back_populates='stream', cascade="all, delete")
     timing_ref: Mapped[JsonObject | None] = mapped_column(
         'timing_reference',
         sqlalchemy_jsonfield.JSONField(
